@@ -116,8 +116,10 @@ func (c *Ctx) RunChildren(name string, jobs []any, par int, perJob time.Duration
 				if status != "" {
 					res[i].Crashed = status == "crash"
 					res[i].Timeout = status == "timeout"
-					res[i].Stderr = ch.stderrTail()
+					// reap the child first: Wait returns after its stderr has been copied,
+					// so the message of a crash is complete when it is read
 					ch.kill()
+					res[i].Stderr = ch.stderrTail()
 					ch = nil
 				}
 			}
